@@ -8,10 +8,10 @@ INVS = ("TypeOK GapFreeSuffix NotLessThanIdeal WindowFaultFree Recovers Outside 
 
 
 def inst(name, base=0, count=2, roller="window", append=True, trig="size", limit=2, sizes=(1, 3), pre="PreA",
-         maxrec=4, faults=0, crash=0, restart=0, obst=0, hist=True, reopen=False, encfail=0, buf=99, overlap=0, gz=False, prearch=False, oswrite=False, full=False):
+         maxrec=4, faults=0, crash=0, restart=0, obst=0, hist=True, reopen=False, encfail=0, buf=99, overlap=0, gz=False, prearch=False, oswrite=False, full=False, nodir=False):
     return dict(name=name, base=base, count=count, roller=roller, append=append, trig=trig, limit=limit,
                 sizes=sizes, pre=pre, maxrec=maxrec, faults=faults, crash=crash, restart=restart, obst=obst,
-                hist=hist, reopen=reopen, encfail=encfail, buf=buf, overlap=overlap, gz=gz, prearch=prearch, oswrite=oswrite, full=full)
+                hist=hist, reopen=reopen, encfail=encfail, buf=buf, overlap=overlap, gz=gz, prearch=prearch, oswrite=oswrite, full=full, nodir=nodir)
 
 
 def write_cfg(i, tag):
@@ -26,8 +26,8 @@ def write_cfg(i, tag):
         f.write("  Trig = \"%s\"\n  Limit = %d\n" % (i["trig"], i["limit"]))
         f.write("  Sizes = {%s}\n  PreSizes <- %s\n" % (", ".join(str(s) for s in i["sizes"]), i["pre"]))
         f.write("  PreArch <- %s\n" % ("AnyPreArch" if i.get("prearch") else "NoPreArch"))
-        f.write("  MaxRec = %d\n  MaxFaults = %d\n  MaxCrash = %d\n  MaxRestart = %d\n  MaxObst = %d\n  MaxEncFail = %d\n  MaxOverlap = %d\n  Gz = %s\n  OsFail = %s\n  ActFull = %s\n  BufFloor = %d\n" % (
-            i["maxrec"], i["faults"], i["crash"], i["restart"], i["obst"], i["encfail"], i.get("overlap", 0), b(i.get("gz", False)), b(i.get("oswrite", False)), b(i.get("full", False)), i["buf"]))
+        f.write("  MaxRec = %d\n  MaxFaults = %d\n  MaxCrash = %d\n  MaxRestart = %d\n  MaxObst = %d\n  MaxEncFail = %d\n  MaxOverlap = %d\n  Gz = %s\n  OsFail = %s\n  ActFull = %s\n  DirObst = %s\n  BufFloor = %d\n" % (
+            i["maxrec"], i["faults"], i["crash"], i["restart"], i["obst"], i["encfail"], i.get("overlap", 0), b(i.get("gz", False)), b(i.get("oswrite", False)), b(i.get("full", False)), b(i.get("nodir", False)), i["buf"]))
         f.write("  Hist = %s\n" % b(i["hist"]))
         f.write("SPECIFICATION Spec\nINVARIANTS %s\nCHECK_DEADLOCK FALSE\n" % INVS)
     return path
@@ -108,7 +108,7 @@ def concurrent_traces(run, tag, trig, limit, runs, long=0):
     with open(cfg, "w") as f:
         f.write("CONSTANTS\n  Base = 0\n  Count = 2\n  Roller = \"window\"\n  AppendMode = TRUE\n  ReopenTruncates = FALSE\n")
         f.write("  Trig = \"%s\"\n  Limit = %d\n  Sizes = {1}\n  PreSizes = {0}\n  MaxRec = 100000\n" % (trig, limit))
-        f.write("  MaxFaults = 0\n  MaxCrash = 0\n  MaxRestart = 0\n  MaxObst = 0\n  MaxEncFail = 0\n  MaxOverlap = 0\n  PreArch <- NoPreArch\n  Gz = FALSE\n  OsFail = FALSE\n  ActFull = FALSE\n  BufFloor = 99\n  Hist = FALSE\n")
+        f.write("  MaxFaults = 0\n  MaxCrash = 0\n  MaxRestart = 0\n  MaxObst = 0\n  MaxEncFail = 0\n  MaxOverlap = 0\n  PreArch <- NoPreArch\n  Gz = FALSE\n  OsFail = FALSE\n  ActFull = FALSE\n  DirObst = FALSE\n  BufFloor = 99\n  Hist = FALSE\n")
         f.write("SPECIFICATION TSpec\nINVARIANTS GapFreeSuffix NotLessThanIdeal LenExact AtMostOneRoll\n")
         f.write("CONSTRAINT Track\nPOSTCONDITION Accepted\nCHECK_DEADLOCK FALSE\n")
     wd = C.workdir("%s_trace_%s_%d" % (tag, trig, limit))
